@@ -14,6 +14,10 @@ import (
 // else runs: a wrong oracle ends the process with status 3 (the driver reports
 // that as inconclusive, never as a violation).
 func TestMain(m *testing.M) {
+	if inChild {
+		runChild(os.Getenv("VERIF_CHILD"))
+		os.Exit(0)
+	}
 	if err := selfCheck(); err != nil {
 		fmt.Println("INFRA: reference self-check failed:", err)
 		os.Exit(3)
